@@ -27,7 +27,7 @@ import schema as sch
 import vlib
 from vlib import mc, tlc
 
-ALL_GROUPS = ["offset", "range", "value", "ref", "kind", "name", "keyword", "unique", "probe", "grid"]
+ALL_GROUPS = ["offset", "range", "value", "ref", "kind", "name", "keyword", "unique", "probe", "grid", "files"]
 
 BAD_NAMES = ["9lives", "a-b", "a.b", "a b", "", "x$", "a:b", "-x"]
 GOOD_NAMES = ["_Zq9", "a__b", "Class", "x_", "INT", "new_", "F00", "_"]
@@ -46,7 +46,8 @@ KEYWORDS_ALL = [
 # invariants fail if a "bad" name is valid or a "good" one is not.)
 
 INVARIANTS = ["BaseIsValid", "BreakBreaksNamedRule", "BreakBreaksExactlyOne", "BoundaryStaysValid",
-              "ValidIsNoBrokenRule", "LayoutTheorem", "OffsetBreakOverlaps", "BlockBreakEscapes", "GridCharacterisation"]
+              "ValidIsNoBrokenRule", "LayoutTheorem", "OffsetBreakOverlaps", "BlockBreakEscapes", "GridCharacterisation",
+              "PlansWellFormed", "SplitKeepsVerdict"]
 
 ANSI = re.compile(r"\x1b\[[0-9;]*m")
 
@@ -90,11 +91,21 @@ def tlc_base(job):
             # transliteration self-check: the emitted schema is Base with the emitted edits applied
             if rulesgen.apply_edits(N, rec["edits"]) != rec["schema"]:
                 raise vlib.InfraError("edits and emitted schema disagree (base %s, %s %s %s)" % (name, rec["kind"], rec["rule"], rec["pos"]))
-            xml = sch.to_xml(rulesgen.denormalize(rec.pop("schema")))
+            D = rulesgen.denormalize(rec.pop("schema"))
+            xml = sch.to_xml(D)
             d = os.path.join(root, name, "%05d" % len(light))
             os.makedirs(d)
             with open(os.path.join(d, "in.xml"), "w") as f:
                 f.write(xml)
+            # the same schema distributed over files (Files.tla plans): one directory per plan
+            plans = rec.pop("plans", [])
+            rec["plans"] = [pl["name"] for pl in plans]
+            for pl in plans:
+                pd = os.path.join(d, "files-" + pl["name"])
+                os.makedirs(pd)
+                for fn, txt in sch.to_xml_files(D, pl["tree"]).items():
+                    with open(os.path.join(pd, fn), "w") as f:
+                        f.write(txt)
             rec["dir"] = d
             rec["xml_sha"] = vlib.sha(xml)
             light.append(rec)
@@ -144,8 +155,10 @@ class Obs:
     __slots__ = ("rc", "out", "located", "loc_in_file", "has_error_line", "left", "crash", "hang", "wall")
 
 
-def observe(sbeppc, xml_path, out_dir, cwd=None, arg=None, schema_name=None):
-    """Run the real sbeppc; report exit status, diagnostics, files written."""
+def observe(sbeppc, xml_path, out_dir, cwd=None, arg=None, schema_name=None, files=None):
+    """Run the real sbeppc; report exit status, diagnostics, files written.
+    files: names (relative to cwd) of all files of a distributed schema - the
+    diagnostic may point into any of them."""
     t0 = time.time()
     opts = ["--schema-name", schema_name] if schema_name else []
     p = vlib.run([sbeppc, "--output-dir", out_dir] + opts + [arg or xml_path], timeout=120, cwd=cwd)
@@ -156,16 +169,17 @@ def observe(sbeppc, xml_path, out_dir, cwd=None, arg=None, schema_name=None):
     o.crash = (p.returncode < 0 and not o.hang) or p.returncode >= 126
     text = ANSI.sub("", (p.stdout or "") + "\n" + (p.stderr or ""))
     o.out = text.strip()
-    base = re.escape(arg or xml_path)
+    base = "(" + "|".join(re.escape(f) for f in (files or [arg or xml_path])) + ")"
     m = re.search(r"^Error: " + base + r":(\d+):(\d+): \S", text, re.M)
     o.has_error_line = re.search(r"^Error: \S", text, re.M) is not None
     o.located = m is not None
     o.loc_in_file = False
     if m:
         try:
-            full = xml_path if os.path.isabs(xml_path) else os.path.join(cwd or ".", xml_path)
+            hit = m.group(1) if files else xml_path
+            full = hit if os.path.isabs(hit) else os.path.join(cwd or ".", hit)
             lines = open(full, errors="replace").read().split("\n")
-            ln, col = int(m.group(1)), int(m.group(2))
+            ln, col = int(m.group(2)), int(m.group(3))
             o.loc_in_file = 1 <= ln <= len(lines) and 1 <= col <= len(lines[ln - 1]) + 1
         except OSError:
             pass
@@ -240,9 +254,21 @@ def run_mutant(job):
         if outcome_alarm(rec["verdict"], o2) != alarm:
             alarm = "flaky:" + alarm
     xml = vlib.read(xp) if alarm else None
-    if alarm is None:
+    # the same schema distributed over files: same verdict, same alarm conditions
+    split = []
+    for pn in rec.get("plans", []):
+        pd = os.path.join(d, "files-" + pn)
+        fs = sorted(os.listdir(pd), key=lambda f: (f != "in.xml", f))
+        po = observe(sbeppc, "in.xml", os.path.join(pd, "out"), cwd=pd, arg="in.xml", files=fs)
+        pa = outcome_alarm(rec["verdict"], po)
+        if pa in ("crash", "hang", "accepted", "rejected"):
+            shutil.rmtree(os.path.join(pd, "out"), ignore_errors=True)
+            if outcome_alarm(rec["verdict"], observe(sbeppc, "in.xml", os.path.join(pd, "out"), cwd=pd, arg="in.xml", files=fs)) != pa:
+                pa = "flaky:" + pa
+        split.append((pn, pa, po, {f: vlib.read(os.path.join(pd, f)) for f in fs} if pa else None))
+    if alarm is None and not any(pa for _, pa, _, _ in split):
         shutil.rmtree(d, ignore_errors=True)
-    return idx, base, alarm, o, xml
+    return idx, base, alarm, o, xml, split
 
 
 # ----------------------------------------------------------------- corpus --
@@ -334,8 +360,24 @@ def run(v, tier, seed):
     rejects = accepts = 0
     distinct = set()
     samples = []
-    for idx, base, alarm, o, xml in vlib.parallel(mjobs, run_mutant):
+    nsplit = 0
+    split_by_plan = {}
+    for idx, base, alarm, o, xml, split in vlib.parallel(mjobs, run_mutant):
         rec = recs[idx][1]
+        for pn, pa, po, pfiles in split:
+            nsplit += 1
+            pc = split_by_plan.setdefault(pn, {"n": 0, "alarms": 0, "rejected_in_included_file": 0})
+            pc["n"] += 1
+            if po.rc != 0 and re.search(r"^Error: inc\d+\.xml:", po.out, re.M):
+                pc["rejected_in_included_file"] += 1
+            if pa:
+                pc["alarms"] += 1
+                v.violation(sig_of(rec, pa) + "/files=" + pn,
+                            "[base %s] %s %s at %s (%s), schema distributed over files as plan `%s`: spec verdict %s (broken %s) but sbeppc exit %s: %s" % (
+                                base, rec["kind"], rec["rule"], rec["pos"], rec["variant"], pn, rec["verdict"], rec["broken"], po.rc, po.out[:500]),
+                            {"base": base, "kind": rec["kind"], "rule": rec["rule"], "pos": rec["pos"], "variant": rec["variant"],
+                             "edits": rec["edits"], "verdict": rec["verdict"], "broken": rec["broken"], "alarm": pa, "plan": pn,
+                             "files": pfiles, "observed": {"rc": po.rc, "out": po.out[:2000], "left": po.left[:20]}})
         key = "%s %s" % (rec["kind"], rec["rule"] or "-")
         c = per_rule.setdefault(key, {"n": 0, "alarms": 0, "diagnostic_names_rule": 0})
         c["n"] += 1
@@ -379,6 +421,7 @@ def run(v, tier, seed):
                          "xml": xml, "observed": {"rc": o.rc, "out": o.out[:2000], "left": o.left[:20]}})
     v.part("sbeppc_runs", n=len(mjobs), wall_s=round(time.time() - t1, 1), expected_reject=rejects, expected_accept=accepts,
            rejects_whose_diagnostic_names_the_rule=named)
+    v.part("distributed_over_files", runs=nsplit, per_plan=split_by_plan)
     v.part("per_rule", **per_rule)
     v.part("probes_rule_list_is_silent", **probes)
     v.part("diagnostics_seen", **{r: sorted(m.items(), key=lambda kv: -kv[1])[:6] for r, m in sorted(msgs.items())})
@@ -391,7 +434,7 @@ def run(v, tier, seed):
     if not samples and recs:
         rec = recs[min(3, len(recs) - 1)][1]
         samples.append({"kind": rec["kind"], "rule": rec["rule"], "position": rec["pos"], "edits": rec["edits"], "verdict": rec["verdict"]})
-    v.add(states=states, transitions=trans, evaluations=len(mjobs) + n["reject"] + n["accept"],
+    v.add(states=states, transitions=trans, evaluations=len(mjobs) + nsplit + n["reject"] + n["accept"],
           distinct_nontrivial=len(distinct), traces_validated_against_impl=len(mjobs),
           rule="one TLC state = one schema obtained from a valid base schema by one Break/Boundary edit at one position "
                "(plus the unedited bases), emitted with Rules!Valid's verdict and run through sbeppc; "
@@ -423,6 +466,17 @@ def replay(rp):
         print("edits: %s" % json.dumps(case.get("edits")))
         print("spec verdict: %s (broken rules: %s)" % (case["verdict"], case.get("broken")))
         print("command: %s --output-dir %s/out %s" % (sbeppc, d, xp))
+        print("sbeppc exit: %s\nsbeppc output: %s\nfiles written: %s" % (o.rc, o.out[:1500], o.left[:20]))
+        print("alarm: %s" % alarm)
+        return 1 if alarm else 0
+    if "files" in case and case["files"]:
+        for fn, txt in case["files"].items():
+            vlib.write(os.path.join(d, fn), txt)
+        o = observe(sbeppc, "in.xml", os.path.join(d, "out"), cwd=d, arg="in.xml", files=sorted(case["files"]))
+        alarm = outcome_alarm(case["verdict"], o)
+        print("plan: %s; edits: %s" % (case.get("plan"), json.dumps(case.get("edits"))))
+        print("spec verdict: %s (broken rules: %s)" % (case["verdict"], case.get("broken")))
+        print("command: cd %s && %s --output-dir out in.xml" % (d, sbeppc))
         print("sbeppc exit: %s\nsbeppc output: %s\nfiles written: %s" % (o.rc, o.out[:1500], o.left[:20]))
         print("alarm: %s" % alarm)
         return 1 if alarm else 0
